@@ -2,7 +2,7 @@
    the corollaries (an answer does not depend on the history; repeated queries agree; sequential
    iteration and random access agree), the witness of the known finding. *)
 From PV Require Import Spec.C10Spec Proofs.C10Base Proofs.C10Tree Proofs.C10Elf Proofs.C10Units Proofs.C10Lines
-  Proofs.C10Main Proofs.C10Top Proofs.C10NavTop.
+  Proofs.C10Main Proofs.C10Top Proofs.C10TUs Proofs.C10NavTop.
 From Coq Require Import ZArith List Bool Lia ZifyBool.
 Import ListNotations.
 Open Scope Z_scope.
@@ -101,6 +101,8 @@ Section Final.
     - apply ref_LineEntries; auto.
     - apply ref_CFI; auto.
     - apply ref_CFIDecoded; auto.
+    - apply ref_TUBySig; auto.
+    - apply ref_NewIterTUs; auto.
     - apply ref_NewIterCUs; auto.
     - apply ref_NewIterDIEs; auto.
     - apply ref_NewIterChildren; auto.
@@ -201,7 +203,7 @@ Section Final.
     valid_op F (CUAt off) = true /\ snd (step P fuel s (Next slot)) = query_spec F (CUAt off).
   Proof.
     intros HI Hfr Hs Hlt. pose proof (slot_rel s afs slot Hfr) as Hrel. rewrite Hs in Hrel.
-    inversion Hrel as [|? Hu| | | | | | |]. subst. destruct (Hu Hlt) as (ud & Hud).
+    inversion Hrel as [|? Hu| | | | | | | |]. subst. destruct (Hu Hlt) as (ud & Hud).
     split; [cbn [valid_op]; unfold has_unit; rewrite Hud; reflexivity|].
     rewrite (next_spec s afs slot HI Hfr). cbn [spec_step]. rewrite Hs. cbn [aframe_next query_spec].
     destruct (Z.ltb_spec off (f_info_size F)); [|lia]. rewrite Hud. reflexivity.
@@ -234,7 +236,7 @@ Section Final.
     valid_op F (EGetTag n) = true /\ snd (step P fuel s (Next slot)) = query_spec F (EGetTag n).
   Proof.
     intros HI Hfr Hs. pose proof (slot_rel s afs slot Hfr) as Hrel. rewrite Hs in Hrel.
-    inversion Hrel as [| | | | | | | |? ? Hn Hdy Hlt]. subst.
+    inversion Hrel as [| | | | | | | | |? ? Hn Hdy Hlt]. subst.
     destruct (has_dyn_facts F WF fuel Hfuel Hdy) as (Hes & nt & Hct). specialize (Hlt eq_refl nt Hct).
     split; [cbn [valid_op]; rewrite Hdy; destruct (Z.leb_spec 0 n); [reflexivity|lia]|].
     rewrite (next_spec s afs slot HI Hfr). cbn [spec_step]. rewrite Hs. cbn [aframe_next query_spec]. rewrite Hct.
